@@ -1,10 +1,10 @@
 package rules
 
 import (
-	"math"
 	"fmt"
 	"go/token"
 	"go/types"
+	"math"
 	"math/big"
 	"sort"
 	"strings"
@@ -30,7 +30,9 @@ func init() {
 			"S10: in every function of the codec package, the error of every emission (a Write on the destination io.Writer, or a call of a package function that transitively does one and reports an error) reaches the caller: on every path from the emission to a return the emission's error is known to be nil, or the returned error is that very error, or it is known to be non-nil (decided per path, phi operands and result variables resolved by the path); an emission whose error is never read is violated. " +
 			"S11: a scratch region that is released to shared storage ((*sync.Pool).Put, a channel send, directly or through a private function that does so with its parameter) is not used afterwards - no path from the release to an instruction that uses the region or an alias of it (window, pointer, element address) other than through the instruction that obtains a region anew; a deferred release counts at the return. " +
 			"S12: the destination of every emission in the codec package (receiver of an interface Write/WriteByte/WriteString, a writer handed to another call) originates - through type assertions, phis, locals, results of package functions and parameters of private functions followed to their call sites - from values read in the same call, never from a private field of a struct that has an exported io.Writer field (the stream writer): every byte goes to the current value of the exported field. " +
-			"S13: no exit of UnmarshalBytes/UnmarshalString (exported decoders whose value is a byte slice or string) that can report an error is controlled by a condition computed from the decoded body (the value the other exits return, followed back through casts, copies and phis to the window, the copy or the delegate's value result; anything computed from it except len/cap), since the encoders accept every byte sequence.",
+			"S13: no exit of UnmarshalBytes/UnmarshalString (exported decoders whose value is a byte slice or string) that can report an error is controlled by a condition computed from the decoded body (the value the other exits return, followed back through casts, copies and phis to the window, the copy or the delegate's value result; anything computed from it except len/cap), since the encoders accept every byte sequence. " +
+			"S14: an exit of a Marshal/Unmarshal function whose count is the constant 0 returns an error that is provably non-nil there (fresh, sentinel, a helper all of whose exits are fresh errors, or non-nil by the exit's branch facts): (0, nil) is never an answer. " +
+			"S15: on every way into a failing exit of UnmarshalBytes/UnmarshalString either the error of the decoder it delegates to is non-nil, or a branch fact says strictly wire length > len(buf) - header bytes (unsigned, signed on the converted value, or against a constant no int exceeds): no rejection on which length <= remaining may hold.",
 		NotDecided: "the round-trip equality decode(encode(x))=x as a value statement; the shift/or arithmetic inside the loops.",
 	})
 	register(&Check{
@@ -44,7 +46,7 @@ func init() {
 			"R3: a wire length (result of a varint/fixed decoder, also when kept in a local struct) reaches arithmetic, slice bounds, indices or make sizes only where guard facts bound it: an unsigned comparison against a len(buf)-derived operand, or sign test plus signed bound after the conversion (the sign test may be made before the conversion: the unsigned value is compared with a constant the signed type can hold, and the signed bound may be tested on another evaluation of the same conversion); a window of t bytes is cut only after t was compared with what remains of the sliced value. " +
 			"R4: every failure exit reports 0 consumed bytes (or the count of the failing callee, 0 under its own R4). " +
 			"R5: a returned slice/string derives from a sub-slice of the input or from a copy (SliceCopy, make+copy) of one. " +
-			"R6: the consumed count of a success exit is a guarded constant, an expression the facts and loop invariants (loop variable <= len, len(cursor) <= len(buf) for a cursor only re-sliced without upper bound) place in [0,len(buf)], a callee count, the end offset of a window cut from buf under R3, or an external decoder's count under an n>0 guard. R3 also: a byte of the input used as a number (a one-byte length header) is a wire length where it bounds a slice. R7: private functions reached from the decoders (error constructors, formatters) index fixed-size tables in range, by interval evaluation of the index (constants, + - / by constants, widening conversions, bits.Len as a monotone function, refined by dominating comparisons with constants).",
+			"R6: the consumed count of a success exit is a guarded constant, an expression the facts and loop invariants (loop variable <= len, len(cursor) <= len(buf) for a cursor only re-sliced without upper bound) place in [0,len(buf)], a callee count, the end offset of a window cut from buf under R3, or an external decoder's count under an n>0 guard. R3 also: a byte of the input used as a number (a one-byte length header) is a wire length where it bounds a slice. R7: private functions reached from the decoders (error constructors, formatters) index fixed-size tables in range, by interval evaluation of the index (constants, + - / by constants, widening conversions, bits.Len as a monotone function - bits.Len(x) of a 64-bit unsigned x that is not bounded below 2^63 ranges up to 64, i.e. over 65 values -, refined by dominating comparisons with constants). R8: in every loop of the decoders (and of the private functions they hand their input to) the cursor - an integer phi of the loop header that reaches an index or slice bound of the buffer, or a phi that is a window of the buffer - does not arrive recognisably unchanged (the phi itself, also through merges in the body, plus zero, re-sliced from 0) over any back edge: a way round the loop that does not advance reads the same byte again and never returns.",
 		NotDecided: "nothing material about panics on the idioms recognised; an unrecognised index/bound expression is reported as undecided (CHECK-ERROR), not guessed. 'Sub-range' is established as provenance, not arithmetic.",
 	})
 }
@@ -367,6 +369,19 @@ func runC16(c *Ctx) {
 		}
 	}
 	c.tableIndexInRange("C16.R7", decoders)
+	// R8 termination of the decoder loops (v_codec_g_loop.go)
+	{
+		n := 0
+		for _, fn := range decoders {
+			n += c.loopsAdvanceCursor(fn, bufParam(fn, false))
+		}
+		for _, h := range helpers {
+			n += c.loopsAdvanceCursor(h.fn, h.buf)
+		}
+		if n == 0 {
+			c.Decide("C16.R8", decoders[0], "every way round the loop advances the input cursor", nil, true, "")
+		}
+	}
 	c.R.Floor("C16.R1", 4)
 	c.R.Floor("C16.R2", 1)
 	c.R.Floor("C16.R3", 1)
@@ -986,6 +1001,8 @@ func runC15(c *Ctx) {
 	c.scratchNotTouchedAfterRelease()
 	c.writesToCurrentDestination() // S12 (v_codec_writer.go)
 	c.decodersAcceptEveryBody()    // S13 (v_codec_domain.go)
+	c.zeroCountIsFailure()         // S14 (v_codec_g_exits.go)
+	c.lengthRejectionsAreStrict()  // S15 (v_codec_g_exits.go)
 	// S7 short buffer is an error
 	handedTo := map[*ssa.Parameter]bool{}
 	for _, fn := range xbinaryFuncs(c, "Marshal") {
@@ -2523,7 +2540,8 @@ func (c *Ctx) tableIndexInRange(rule string, decoders []*ssa.Function) {
 					width = 8
 				}
 				if a, okA := eval(x.Call.Args[0], at, d+1); okA && a.lo >= 0 {
-					r, ok = iv{bitsLen(a.lo), minI(bitsLen(a.hi), width)}, true
+					// (an unsigned word whose interval is saturated at MaxInt64 may have its top bit set: v_codec_g_bits.go)
+					r, ok = iv{bitsLen(a.lo), c.bitsLenUpperV(x.Call.Args[0], a.hi, bitsLen(a.hi), width)}, true
 				} else {
 					r, ok = iv{0, width}, true
 				}
